@@ -191,6 +191,16 @@ func (f *fileData) save() error {
 	return f.fs.setFile(f.path, f)
 }
 
+// writeBack saves an open file's changes, unless the file was removed or renamed since it was opened.
+// Like an unlinked file, the data then lives on in the open handles only: saving would bring the old name back.
+func (f *file) writeBack() error {
+	_, err := f.fs.getFile(f.path)
+	if errors.Is(err, hackpadfs.ErrNotExist) || errors.Is(err, hackpadfs.ErrNotDir) {
+		return nil
+	}
+	return f.save()
+}
+
 func (f *fileData) info() hackpadfs.FileInfo {
 	return fileInfo{Record: f, Path: f.path}
 }
@@ -360,7 +370,7 @@ func (f *file) writeBlobAt(op string, p blob.Blob, off int64) (n int, err error)
 	if n != 0 {
 		f.updateModTime()
 	}
-	err = f.save()
+	err = f.writeBack()
 	return
 }
 
@@ -405,7 +415,7 @@ func (f *file) Truncate(size int64) error {
 		}
 	}
 	f.updateModTime()
-	return f.save()
+	return f.writeBack()
 }
 
 func (f *file) ReadDir(n int) ([]hackpadfs.DirEntry, error) {
@@ -478,5 +488,5 @@ func (f *file) Chmod(mode hackpadfs.FileMode) error {
 	}
 	newMode := (f.Mode() & ^chmodBits) | (mode & chmodBits)
 	f.modeOverride = &newMode
-	return f.save()
+	return f.writeBack()
 }
